@@ -19,7 +19,14 @@
   * deadlines: `Conn` embeds `net.Conn`, so `SetDeadline/SetReadDeadline/SetWriteDeadline` are the
     underlying connection's and bound the underlying I/O only; the wait runs on
     `context.Background()` and is never cut short (`stepArmed`).  What a wait that honours a deadline
-    would do is kept beside it (`waitNWithin`, `stepD`) so that the theorems can say why it must not.
+    would do is kept beside it (`waitNWithin`, `stepD`) so that the theorems can say why it must not;
+  * the wait context: `WaitN(waitContext, n)` with the package-level `context.Background()`; the state of
+    that context is an explicit input of the wait step (`waitNCtx`, `stepC`) and listener lifecycle events
+    are part of the history (`HEv`, `stepH`); contexts that `Listener.Close` or the shutdown would cancel
+    are kept beside it (`WaitCtx`);
+  * the schedule layer: a connection has a goroutine in `Read` and one in `Write`, each waiting in its
+    own queue (`Duplex.readWait` / `writeWait`, `stepQ`); `Conn` takes no lock of its own.  A connection
+    level mutex held across the wait is kept beside it (`stepM`).
 
   Core-only.
 -/
@@ -315,6 +322,216 @@ def validSched (L : Listener) (w k : Nat) (ops : List Op) : Bool :=
     (the `+ 1` ns is the truncation of waits to whole nanoseconds). -/
 def boundHolds (R B k w bytes t0 t1 : Nat) : Bool :=
   decide (bytes * nsPerSec ≤ (B + k * w) * nsPerSec + R * (t1 - t0 + 1))
+
+/-! ### The wait context (lifecycle layer)
+
+`Conn.Read/Write` call `WaitN(waitContext, n)` with the package-level
+`var waitContext = context.Background()` (`ratelimit/conn.go`): a context that is never done,
+whatever happens to the listener that accepted the connection (`ratelimit.Listener` has no `Close`
+of its own: closing it closes the embedded `net.Listener` only) or to the context handed to
+`HTTPProxy.Run` (graceful shutdown closes the listeners FIRST and then drains the connections for
+up to `--shutdown-timeout`).  The state of the wait context is an explicit input of the wait step
+(`waitNCtx`), the lifecycle events are part of the history (`HEv`), and what other choices of
+context would do is kept beside the code's choice so that the theorems can say why it must stay
+`Background`. -/
+
+/-- how far the lifecycle has got: is the listener still open, is `Run`'s context still live -/
+structure Life where
+  listenerOpen : Bool
+  runLive : Bool
+  deriving DecidableEq, Repr
+
+def Life.start : Life := { listenerOpen := true, runLive := true }
+
+/-- candidates for the context handed to `WaitN` -/
+inductive WaitCtx where
+  /-- `context.Background()` — never done -/
+  | background
+  /-- a context owned by the listener and cancelled by its `Close` -/
+  | listener
+  /-- the context of `Run` (cancelled when the graceful shutdown starts) -/
+  | run
+  deriving DecidableEq, Repr
+
+/-- `ctx.Done()` is closed -/
+def WaitCtx.done : WaitCtx → Life → Bool
+  | .background, _ => false
+  | .listener, lf => !lf.listenerOpen
+  | .run, lf => !lf.runLive
+
+/-- the context `Conn.Read/Write` pass to `WaitN`: `var waitContext = context.Background()` -/
+def connWaitCtx : WaitCtx := .background
+
+/-- `(*Limiter).WaitN(ctx, n)` entered at `t` with the state of `ctx` explicit: a context that is
+    already done makes it return its error **at once, reserving nothing** (x/time/rate `wait`:
+    `select { case <-ctx.Done(): return ctx.Err() default: }` before `reserveN`) — and `Conn`
+    ignores the result, the bytes having been moved already.  (A context that becomes done *during*
+    the wait additionally hands the reservation back, `r.Cancel()`; not represented: the code's
+    context never becomes done.) -/
+def waitNCtx (l : Limiter) (s : LState) (t n : Nat) (done : Bool) : LState × Nat :=
+  if done then (s, t) else waitN l s t n
+
+/-- `stepB` with the wait context's state as an input -/
+def stepC (l : Limiter) (s : RunSt) (op : BOp) (done : Bool) : RunSt :=
+  if op.n = 0 then { st := s.st, now := op.t, rd := s.rd.set op.c op.t } else
+  let r := waitNCtx l s.st op.t op.n done
+  { st := r.1, now := op.t, rd := s.rd.set op.c r.2 }
+
+/-- an event of a listener's history: a call on one of its accepted connections (one direction), or
+    a lifecycle event -/
+inductive HEv where
+  | call (op : BOp)
+  /-- `Listener.Close` (what `HTTPProxy.run` does first when shutting down) -/
+  | listenerClose
+  | listenerOpen
+  /-- the context handed to `Run` is cancelled -/
+  | runCancel
+  deriving DecidableEq, Repr
+
+structure HSt where
+  run : RunSt
+  life : Life
+  deriving DecidableEq, Repr
+
+/-- one event, the calls waiting on context `cx` -/
+def stepH (cx : WaitCtx) (l : Limiter) (s : HSt) : HEv → HSt
+  | .call op => { run := stepC l s.run op (cx.done s.life), life := s.life }
+  | .listenerClose => { run := s.run, life := { s.life with listenerOpen := false } }
+  | .listenerOpen => { run := s.run, life := { s.life with listenerOpen := true } }
+  | .runCancel => { run := s.run, life := { s.life with runLive := false } }
+
+def runH (cx : WaitCtx) (l : Limiter) : HSt → List HEv → HSt
+  | s, [] => s
+  | s, e :: rest => runH cx l (stepH cx l s e) rest
+
+/-- return times of the calls of a history -/
+def retsH (cx : WaitCtx) (l : Limiter) : HSt → List HEv → List Nat
+  | _, [] => []
+  | s, .call op :: rest =>
+    (stepH cx l s (.call op)).run.rd.getD op.c op.t :: retsH cx l (stepH cx l s (.call op)) rest
+  | s, .listenerClose :: rest => retsH cx l (stepH cx l s .listenerClose) rest
+  | s, .listenerOpen :: rest => retsH cx l (stepH cx l s .listenerOpen) rest
+  | s, .runCancel :: rest => retsH cx l (stepH cx l s .runCancel) rest
+
+/-- the calls of a history -/
+def callsOf : List HEv → List BOp
+  | [] => []
+  | .call op :: rest => op :: callsOf rest
+  | .listenerClose :: rest => callsOf rest
+  | .listenerOpen :: rest => callsOf rest
+  | .runCancel :: rest => callsOf rest
+
+/-- schedule validity of a history (as `validB`: time-ordered calls, known connection, a connection's
+    previous call has returned, at most `w` bytes per call); lifecycle events are unconstrained -/
+def validH (cx : WaitCtx) (l : Limiter) (w : Nat) : HSt → List HEv → Bool
+  | _, [] => true
+  | s, .call op :: rest =>
+    decide (s.run.now ≤ op.t) && decide (op.c < s.run.rd.length) && decide (s.run.rd.getD op.c 0 ≤ op.t) &&
+      decide (op.n ≤ w) && validH cx l w (stepH cx l s (.call op)) rest
+  | s, .listenerClose :: rest => validH cx l w (stepH cx l s .listenerClose) rest
+  | s, .listenerOpen :: rest => validH cx l w (stepH cx l s .listenerOpen) rest
+  | s, .runCancel :: rest => validH cx l w (stepH cx l s .runCancel) rest
+
+/-- no call of the history found its wait context done -/
+def liveAtCalls (cx : WaitCtx) : Life → List HEv → Bool
+  | _, [] => true
+  | lf, .call op :: rest => (!cx.done lf || decide (op.n = 0)) && liveAtCalls cx lf rest
+  | lf, .listenerClose :: rest => liveAtCalls cx { lf with listenerOpen := false } rest
+  | lf, .listenerOpen :: rest => liveAtCalls cx { lf with listenerOpen := true } rest
+  | lf, .runCancel :: rest => liveAtCalls cx { lf with runLive := false } rest
+
+/-! ### The schedule layer: two goroutines per connection
+
+A connection that carries traffic in both directions at once (CONNECT tunnel, upgraded connection)
+has one goroutine in `Conn.Read` and one in `Conn.Write`.  `Conn` holds no lock of its own: each
+goroutine waits in its own limiter's queue.  `readWait c` / `writeWait c` is the time at which the
+outstanding `Read` / `Write` of connection `c` returns; a goroutine's next call starts then, its
+underlying I/O takes `io` ns, and it enters `WaitN` when the I/O is done. -/
+
+/-- one call of a goroutine: the underlying I/O takes `io` ns and moves `n` bytes -/
+structure QOp where
+  conn : Nat
+  dir : Dir
+  io : Nat
+  n : Nat
+  deriving DecidableEq, Repr
+
+structure Duplex where
+  sys : Sys
+  readWait : Nat → Nat
+  writeWait : Nat → Nat
+
+def Duplex.init (L : Listener) : Duplex := { sys := Sys.init L, readWait := fun _ => 0, writeWait := fun _ => 0 }
+
+def Duplex.wait (s : Duplex) : Dir → Nat → Nat
+  | .rx => s.readWait
+  | .tx => s.writeWait
+
+def upd (f : Nat → Nat) (c v : Nat) : Nat → Nat := fun x => if x = c then v else f x
+
+/-- a call of one goroutine (in the order the calls take the limiter's lock): new state, return time.
+    Only the call's own direction's queue and limiter are involved. -/
+def stepQ (L : Listener) (s : Duplex) (op : QOp) : Duplex × Nat :=
+  let r := step L s.sys { time := s.wait op.dir op.conn + op.io, conn := op.conn, dir := op.dir, n := op.n }
+  match op.dir with
+  | .rx => ({ sys := r.1, readWait := upd s.readWait op.conn r.2, writeWait := s.writeWait }, r.2)
+  | .tx => ({ sys := r.1, readWait := s.readWait, writeWait := upd s.writeWait op.conn r.2 }, r.2)
+
+/-- return times of the calls of direction `d` -/
+def retsQ (L : Listener) (d : Dir) : Duplex → List QOp → List Nat
+  | _, [] => []
+  | s, op :: rest =>
+    if op.dir = d then (stepQ L s op).2 :: retsQ L d (stepQ L s op).1 rest else retsQ L d (stepQ L s op).1 rest
+
+/-- one direction on its own: limiter (if any), its state, that direction's queue -/
+def soloStep (lim : Option Limiter) (st : LState) (t n : Nat) : LState × Nat :=
+  match lim with
+  | none => (st, t)
+  | some l => if n = 0 then (st, t) else waitN l st t n
+
+def soloQ (lim : Option Limiter) : LState → (Nat → Nat) → List QOp → List Nat
+  | _, _, [] => []
+  | st, wt, op :: rest =>
+    (soloStep lim st (wt op.conn + op.io) op.n).2 ::
+      soloQ lim (soloStep lim st (wt op.conn + op.io) op.n).1
+        (upd wt op.conn (soloStep lim st (wt op.conn + op.io) op.n).2) rest
+
+/-- the calls of direction `d` -/
+def projQ (d : Dir) : List QOp → List QOp
+  | [] => []
+  | op :: rest => if op.dir = d then op :: projQ d rest else projQ d rest
+
+/-- NOT what `Conn` does — a connection-level mutex held across the wait (e.g. to account the time
+    spent throttled): `mu c` is the time at which connection `c`'s mutex is released.  A direction
+    without a limiter never takes it. -/
+structure DuplexM where
+  sys : Sys
+  readWait : Nat → Nat
+  writeWait : Nat → Nat
+  mu : Nat → Nat
+
+def DuplexM.init (L : Listener) : DuplexM :=
+  { sys := Sys.init L, readWait := fun _ => 0, writeWait := fun _ => 0, mu := fun _ => 0 }
+
+def DuplexM.wait (s : DuplexM) : Dir → Nat → Nat
+  | .rx => s.readWait
+  | .tx => s.writeWait
+
+def stepM (L : Listener) (s : DuplexM) (op : QOp) : DuplexM × Nat :=
+  let io := s.wait op.dir op.conn + op.io
+  let locked := (L.limiter op.dir).isSome && decide (op.n ≠ 0)
+  -- `c.mu.Lock()` succeeds when the other goroutine's wait is over
+  let t := if locked then (if io < s.mu op.conn then s.mu op.conn else io) else io
+  let r := step L s.sys { time := t, conn := op.conn, dir := op.dir, n := op.n }
+  let mu' := if locked then upd s.mu op.conn r.2 else s.mu
+  match op.dir with
+  | .rx => ({ sys := r.1, readWait := upd s.readWait op.conn r.2, writeWait := s.writeWait, mu := mu' }, r.2)
+  | .tx => ({ sys := r.1, readWait := s.readWait, writeWait := upd s.writeWait op.conn r.2, mu := mu' }, r.2)
+
+def retsM (L : Listener) (d : Dir) : DuplexM → List QOp → List Nat
+  | _, [] => []
+  | s, op :: rest =>
+    if op.dir = d then (stepM L s op).2 :: retsM L d (stepM L s op).1 rest else retsM L d (stepM L s op).1 rest
 
 end C20
 end FwdVerif
